@@ -352,7 +352,20 @@ TimeoutAdd(w, h, id) == [w EXCEPT !.timeoutQ = SchedAdd(@, h, id)]
 ExpShardAdd(w, h, id) == [w EXCEPT !.expShardQ = SchedAdd(@, h, id)]
 
 \* ------------------------------------------------------------------ x/sao message handlers
-SigOk(ev) == ev.sigmode = "ok" /\ ev.signer = ev.owner   \* JWS by proposal.owner's key over exactly this proposal
+\* JWS verification (x/sao/keeper/verify.go + sao-did): the DID named by the header's kid must be proposal.owner and the
+\* signature must verify, over exactly this proposal, against
+\*   - a did:key : the key that IS the DID;
+\*   - a did:sid : a key of the sid document named by the kid's version-id, which must be one of the versions of THAT DID
+\*     (any version: rotation adds a document, it does not revoke the older ones).
+\* ev.signer names the key that really signed: a did:key ("d2") or a sid document ("s1" = root document of s1, "s1_v2").
+\* sigmode: ok = header names the signer's own DID; kidspoof = header names proposal.owner whoever signed (for a sid
+\* document as signer: version-id still points at the signer's document); stale = signature over another payload.
+SigOk(cfg, s, ev) ==
+    IF InSeq(ev.signer, cfg.didOrder) THEN ev.sigmode = "ok" /\ ev.signer = ev.owner
+    ELSE /\ ev.sigmode \in {"ok", "kidspoof"}
+         /\ IsSidDocOnChain(s, ev.signer)
+         /\ (ev.sigmode = "ok" => SidOfDoc(s, ev.signer) = ev.owner)
+         /\ InSeq(ev.signer, DocsOf(s, ev.owner))
 BoundTo(w, acc, did) == Has(w.bindings, "acc", acc) /\ Get(w.bindings, "acc", acc).did = did
 SegHas(seg, tok) == \E i \in 1..Len(seg) : seg[i] = tok    \* strings.Contains on distinct uuid tokens
 
@@ -362,11 +375,11 @@ TxStore(cfg, s, ev) ==
         newc == IF Len(ev.cseg) > 1 THEN ev.cseg[2] ELSE ev.cseg[1]
         size == IF ev.size = 0 THEN 1 ELSE ev.size
     IN
-    IF ~SigOk(ev) THEN Tx(s, Fail(w0, "invalid signature"))
+    IF ~SigOk(cfg, s, ev) THEN Tx(s, Fail(w0, "invalid signature"))
     ELSE IF ev.commit = "" \/ ev.data = "" \/ ev.op < 1 \/ ev.op > 2 \/ ev.dur < MinDuration THEN Tx(s, Fail(w0, "invalid argument"))
     ELSE IF ~HasMeta(s, ev.data) /\ ~SegHas(ev.cseg, ev.data) THEN Tx(s, Fail(w0, "metadata not found"))
-    ELSE IF HasMeta(s, ev.data) /\ ~AuthorisedFor(MetaOf(s, ev.data), ev.signer) THEN Tx(s, Fail(w0, "no permission"))
-    ELSE IF ev.paydid # "" /\ (~HasPay(s, ev.paydid) \/ PayOf(s, ev.paydid) # ev.creator) THEN Tx(s, Fail(w0, "payment did"))
+    ELSE IF HasMeta(s, ev.data) /\ ~AuthorisedFor(MetaOf(s, ev.data), ev.owner) THEN Tx(s, Fail(w0, "no permission"))
+    ELSE IF ev.paydid # "" /\ (~InSeq(ev.paydid, cfg.didOrder) \/ ~HasPay(s, ev.paydid) \/ PayOf(s, ev.paydid) # ev.creator) THEN Tx(s, Fail(w0, "payment did"))
     ELSE IF ~HasNode(s, ev.gw) THEN Tx(s, Fail(w0, "node not found"))
     ELSE IF ev.timeout = 0 THEN Tx(s, Fail(w0, "invalid timeout"))
     ELSE
@@ -507,10 +520,10 @@ TxCancel(cfg, s, ev) ==
 TxTerminate(cfg, s, ev) ==
     LET w0 == Work(s) IN
     IF ~ActsFor(s, ev.creator, ev.provider) THEN Tx(s, Fail(w0, "invalid provider"))
-    ELSE IF ~SigOk(ev) THEN Tx(s, Fail(w0, "invalid signature"))
+    ELSE IF ~SigOk(cfg, s, ev) THEN Tx(s, Fail(w0, "invalid signature"))
     ELSE IF ~HasMeta(s, ev.data) THEN Tx(s, Fail(w0, "dataId not found"))
     ELSE LET m == MetaOf(s, ev.data) IN
-         IF ~AuthorisedFor(m, ev.signer) THEN Tx(s, Fail(w0, "no permission"))
+         IF ~AuthorisedFor(m, ev.owner) THEN Tx(s, Fail(w0, "no permission"))
          ELSE LET step(acc, oid) ==
                       IF ~Good(acc.w) \/ ~HasOrder(acc.w, oid) THEN acc
                       ELSE LET oo == OrderOf(acc.w, oid) IN [w |-> ModelTerminateOrder(cfg, acc.w, oo), ids |-> acc.ids \cup Rng(oo.shards)]
@@ -520,14 +533,14 @@ TxTerminate(cfg, s, ev) ==
 
 TxRenew(cfg, s, ev) ==
     LET w0 == Work(s) IN
-    IF ~SigOk(ev) THEN Tx(s, Fail(w0, "invalid signature"))
+    IF ~SigOk(cfg, s, ev) THEN Tx(s, Fail(w0, "invalid signature"))
     ELSE IF ~ActsFor(s, ev.creator, ev.provider) THEN Tx(s, Fail(w0, "invalid provider"))
     ELSE IF ev.dur < MinDuration \/ ev.dur > 63072000 THEN Tx(s, Fail(w0, "invalid duration"))
     ELSE
     LET one(w, d) ==
           IF ~HasMeta(w, d) THEN w
           ELSE LET m == MetaOf(w, d) IN
-          IF m.owner # ev.signer \/ m.status # MComplete \/ ~HasOrder(w, m.order) THEN w
+          IF m.owner # ev.owner \/ m.status # MComplete \/ ~HasOrder(w, m.order) THEN w
           ELSE LET o == OrderOf(w, m.order) IN
           IF \E j \in 1..Len(o.shards) : ~HasShard(w, o.shards[j]) \/ ShardOf(w, o.shards[j]).status \notin {SCompleted, SMigrating} THEN w
           ELSE IF o.status # OCompleted \/ o.created + o.dur < w.h THEN w
@@ -588,7 +601,7 @@ TxMigrate(cfg, s, ev) ==
 TxPermission(cfg, s, ev) ==
     LET w0 == Work(s) IN
     IF ~ActsFor(s, ev.creator, ev.provider) THEN Tx(s, Fail(w0, "invalid provider"))
-    ELSE IF ~SigOk(ev) THEN Tx(s, Fail(w0, "invalid signature"))
+    ELSE IF ~SigOk(cfg, s, ev) THEN Tx(s, Fail(w0, "invalid signature"))
     ELSE IF \E i \in 1..Len(ev.ro \o ev.rw) : ~HasPay(s, (ev.ro \o ev.rw)[i]) THEN Tx(s, Fail(w0, "invalid did"))
     ELSE IF ~HasMeta(s, ev.data) THEN Tx(s, Fail(w0, "dataId not found"))
     ELSE IF MetaOf(s, ev.data).owner # ev.owner THEN Tx(s, Fail(w0, "no permission"))
@@ -683,6 +696,9 @@ AccDid(acc, did) == "ad_" \o acc \o "_" \o did
 DidExists(w, did) == Has(w.versions, "doc", did)
 AccListOf(w, did) == IF Has(w.accLists, "did", did) THEN Get(w.accLists, "did", did).accs ELSE <<>>
 BoundDid(w, acc) == IF Has(w.bindings, "acc", acc) THEN Get(w.bindings, "acc", acc).did ELSE ""
+\* accounts: cfg.accs are the cosmos accounts of this chain; any other name ("e1", ...) is an eip155 (Ethereum) account,
+\* bound with an EIP-191 proof (sigmode as for cosmos accounts: ok | wrongkey | none | replay)
+IsCosmosAcc(cfg, a) == InSeq(a, cfg.accs)
 FreshWindow == 900     \* EXPIRE_DURATION, seconds; ev.amount = proof timestamp - block time
 
 TxBinding(cfg, s, ev) ==
@@ -696,7 +712,8 @@ TxBinding(cfg, s, ev) ==
     ELSE
     LET w1 == IF DidExists(s, ev.did) THEN w0
               ELSE [w0 EXCEPT !.versions = Append(@, [doc |-> ev.did, versions |-> <<ev.did>>]),
-                              !.pay = IF HasPay(s, ev.did) THEN @ ELSE Append(@, [did |-> ev.did, a |-> ev.acc])]
+                              \* the first account becomes the payment address only if it is an account on this chain
+                              !.pay = IF HasPay(s, ev.did) \/ ~IsCosmosAcc(cfg, ev.acc) THEN @ ELSE Append(@, [did |-> ev.did, a |-> ev.acc])]
         w2 == [w1 EXCEPT !.accAuths = Append(@, ad),
                          !.accLists = IF Has(@, "did", ev.did) THEN Put(@, "did", [did |-> ev.did, accs |-> Append(AccListOf(s, ev.did), ad)])
                                       ELSE Append(@, [did |-> ev.did, accs |-> <<ad>>]),
@@ -734,6 +751,7 @@ TxPayAddrSid(cfg, s, ev) ==
     LET w0 == Work(s) IN
     IF HasPay(s, ev.did) /\ PayOf(s, ev.did) = ev.acc THEN Tx(s, Fail(w0, "same payment address"))
     ELSE IF BoundDid(s, ev.creator) # ev.did THEN Tx(s, Fail(w0, "invalid creator"))
+    ELSE IF ~IsCosmosAcc(cfg, ev.acc) THEN Tx(s, Fail(w0, "invalid account id"))   \* an eip155 account cannot pay on this chain
     ELSE IF BoundDid(s, ev.acc) # ev.did THEN Tx(s, Fail(w0, "binding not found"))
     ELSE Tx(s, [w0 EXCEPT !.pay = Put(@, "did", [did |-> ev.did, a |-> ev.acc])])
 
